@@ -1,0 +1,93 @@
+//go:build verif
+
+package proposal
+
+// Contracts for the deductive checks in /verif (tool: govc). Comment-only; build tag `verif`.
+// Spec functions live in /verif/spec/gov.spec.
+
+// ---- creation: the threshold recorded at submission is two thirds of the snapshot power, rounded down (C15) ----
+
+//@ func NewGovProposal(txhash, optType, startHeight, votingBlocks, totalVotingPower, applyingHeight, voters, options)
+//@   nopanic
+//@   requires 0 <= totalVotingPower && totalVotingPower < 2^62
+//@   allocates GovProposal, voteOption, []*voteOption
+//@   ensures result1 == nil && result0 != nil && fresh(result0)
+//@   ensures result0.TotalVotingPower == totalVotingPower && result0.MajorityPower == totalVotingPower * 2 / 3   [C15]
+//@   ensures result0.StartVotingHeight == startHeight && result0.EndVotingHeight == startHeight + votingBlocks && result0.ApplyingHeight == applyingHeight   [C15]
+//@   ensures result0.MajorOption == nil && result0.Voters == voters && result0.OptType == optType             [C15]
+
+// ---- tallies (C15) ---------------------------------------------------------------------------------
+
+//@ func (opt *voteOption) DoVote(power)
+//@   nopanic
+//@   requires opt != nil
+//@   modifies opt.votes
+//@   ensures opt.votes == old(opt.votes) + power && result == opt.votes
+
+//@ func (opt *voteOption) CancelVote(power)
+//@   nopanic
+//@   requires opt != nil
+//@   modifies opt.votes
+//@   ensures opt.votes == old(opt.votes) - power && result == opt.votes
+
+//@ func (opt *voteOption) Votes()
+//@   pure
+//@   nopanic
+//@   requires opt != nil
+//@   ensures result == opt.votes
+
+// withdrawing a vote takes exactly the voter's power off the option it was cast for, and nothing else
+//@ func (prop *GovProposal) cancelVote(voter)
+//@   nopanic
+//@   requires prop != nil && voter != nil && voter.Choice < len(prop.Options) && (voter.Choice >= 0 ==> prop.Options[voter.Choice] != nil)
+//@   modifies voter.Choice, voteOption.votes
+//@   ensures (old(voter.Choice) >= 0 ==> voter.Choice == -1) && (old(voter.Choice) < 0 ==> voter.Choice == old(voter.Choice))   [C15]
+//@   ensures forall o :: votes(o) == old(votes(o)) - ((old(voter.Choice) >= 0 && o == old(prop.Options[voter.Choice])) ? voter.Power : 0)   [C15]
+
+// casting a vote adds exactly the voter's power to the chosen option and records the choice; the proposal's
+// outcome (MajorOption) is not touched while voting is in progress
+//@ func (prop *GovProposal) doVote(voter, choice)
+//@   nopanic
+//@   requires prop != nil && voter != nil && choice < len(prop.Options)
+//@   modifies voter.Choice, voteOption.votes
+//@   ensures choice >= 0 && prop.Options[choice] != nil ==> voter.Choice == choice                            [C15]
+//@   ensures !(choice >= 0 && prop.Options[choice] != nil) ==> voter.Choice == old(voter.Choice)              [C15]
+//@   ensures forall o :: votes(o) == old(votes(o)) + ((choice >= 0 && o != nil && o == prop.Options[choice]) ? voter.Power : 0)   [C15]
+
+// a vote replaces the voter's earlier one: each recorded voter counts once, with its recorded power
+//@ func (prop *GovProposal) DoVote(addr, choice)
+//@   requires prop != nil && choice < len(prop.Options)
+//@   requires has(prop.Voters, addrstr(content(addr))) && prop.Voters[addrstr(content(addr))] != nil ==> prop.Voters[addrstr(content(addr))].Choice < len(prop.Options) && (prop.Voters[addrstr(content(addr))].Choice >= 0 ==> prop.Options[prop.Voters[addrstr(content(addr))].Choice] != nil)
+//@   modifies Voter.Choice, voteOption.votes
+//@   ensures (result == nil) <==> (has(prop.Voters, addrstr(content(addr))) && prop.Voters[addrstr(content(addr))] != nil)   [C15]
+//@   ensures result != nil ==> (forall o :: votes(o) == old(votes(o)))                                        [C15]
+//@   ensures result == nil ==> (forall o :: votes(o) == old(votes(o)) - ((old(prop.Voters[addrstr(content(addr))].Choice) >= 0 && o == old(prop.Options[prop.Voters[addrstr(content(addr))].Choice])) ? prop.Voters[addrstr(content(addr))].Power : 0) + ((choice >= 0 && o != nil && o == prop.Options[choice]) ? prop.Voters[addrstr(content(addr))].Power : 0))   [C15]
+//@   ensures forall v :: v != prop.Voters[addrstr(content(addr))] ==> as(v, ptr(Voter)).Choice == old(as(v, ptr(Voter)).Choice)   [C15]
+
+// ---- slashing a voter (C14): its weight, the snapshot total and the threshold shrink by the slashed
+// amount, and the tally of the option it voted for shrinks by the same amount
+//@ func (prop *GovProposal) DoPunish(addr, ratio)
+//@   requires prop != nil && 0 <= ratio && ratio <= 100 && 0 <= prop.TotalVotingPower && prop.TotalVotingPower < 2^62
+//@   requires has(prop.Voters, addrstr(content(addr))) ==> prop.Voters[addrstr(content(addr))].Power <= prop.TotalVotingPower
+//@   requires has(prop.Voters, addrstr(content(addr))) ==> prop.Voters[addrstr(content(addr))] != nil && 0 <= prop.Voters[addrstr(content(addr))].Power && prop.Voters[addrstr(content(addr))].Power < 2^55 && prop.Voters[addrstr(content(addr))].Choice < len(prop.Options) && (prop.Voters[addrstr(content(addr))].Choice >= 0 ==> prop.Options[prop.Voters[addrstr(content(addr))].Choice] != nil)
+//@   modifies Voter.Choice, Voter.Power, voteOption.votes, prop.GovProposalHeader.TotalVotingPower, prop.GovProposalHeader.MajorityPower, mapof(prop.Voters)
+//@   allocates uint256.Int
+//@   ensures (result1 == nil) <==> old(has(prop.Voters, addrstr(content(addr))))                              [C14]
+//@   ensures result1 != nil ==> result0 == 0 && prop.TotalVotingPower == old(prop.TotalVotingPower) && (forall o :: votes(o) == old(votes(o)))   [C14]
+//@   ensures result1 == nil ==> result0 == old(prop.Voters[addrstr(content(addr))].Power) * ratio / 100      [C14]
+//@   ensures result1 == nil ==> old(prop.Voters[addrstr(content(addr))]).Power == old(prop.Voters[addrstr(content(addr))].Power) - result0   [C14]
+//@   ensures result1 == nil ==> prop.TotalVotingPower == old(prop.TotalVotingPower) - result0 && prop.MajorityPower == prop.TotalVotingPower * 2 / 3   [C14,C15]
+//@   ensures result1 == nil && old(prop.Voters[addrstr(content(addr))].Choice) >= 0 ==> (forall o :: votes(o) == old(votes(o)) - ((o == old(prop.Options[prop.Voters[addrstr(content(addr))].Choice])) ? result0 + ((old(prop.Voters[addrstr(content(addr))].Power) - result0 <= 0) ? old(prop.Voters[addrstr(content(addr))].Power) - result0 : 0) : 0))   [C14]
+//@   ensures result1 == nil && old(prop.Voters[addrstr(content(addr))].Choice) < 0 ==> (forall o :: votes(o) == old(votes(o)))   [C14]
+//@   ensures result1 == nil ==> (has(prop.Voters, addrstr(content(addr))) <==> old(prop.Voters[addrstr(content(addr))].Power) - result0 > 0)   [C14]
+
+// ---- closing the vote (C15): an option becomes the outcome only if it holds at least the recorded threshold
+//@ func (prop *GovProposal) updateMajorOption()
+//@   requires prop != nil && len(prop.Options) > 0 && (forall i :: 0 <= i && i < len(prop.Options) ==> prop.Options[i] != nil)
+//@   modifies prop.MajorOption, elems(prop.Options)
+//@   ensures result == prop.MajorOption                                                                       [C15]
+//@   ensures prop.MajorOption == old(prop.MajorOption) || (prop.MajorOption != nil && prop.MajorOption.votes >= prop.MajorityPower)   [C15]
+//@   ensures (forall i :: 0 <= i && i < len(prop.Options) ==> prop.Options[i].votes < prop.MajorityPower) ==> prop.MajorOption == old(prop.MajorOption)   [C15]
+
+//@ func (prop *GovProposal) UpdateMajorOption()
+//@   sameas (*GovProposal).updateMajorOption
